@@ -72,6 +72,24 @@ Theorem dh_rejects_invalid : forall c d xb yb,
   on_curve c (be_int xb) (be_int yb) = false -> ecc_dh c d xb yb = InvalidKey.
 Proof. intros. unfold ecc_dh. apply ecdh_rejects_invalid. assumption. Qed.
 
+(* EccKey is stateless: in any sequence of dh() calls on one key object every result is the
+   result of that call alone, so an invalid peer key is rejected whatever was computed before *)
+Theorem dh_history_pure : forall c d calls i xb yb,
+  nth_error calls i = Some (xb, yb) ->
+  nth_error (ecc_dh_history c d calls) i = Some (ecc_dh c d xb yb).
+Proof.
+  intros c d calls i xb yb H. unfold ecc_dh_history.
+  rewrite nth_error_map, H. reflexivity.
+Qed.
+
+Theorem dh_history_rejects_invalid : forall c d calls i xb yb,
+  nth_error calls i = Some (xb, yb) -> on_curve c (be_int xb) (be_int yb) = false ->
+  nth_error (ecc_dh_history c d calls) i = Some InvalidKey.
+Proof.
+  intros c d calls i xb yb H Hoff. rewrite (dh_history_pure c d calls i xb yb H).
+  rewrite dh_rejects_invalid by assumption. reflexivity.
+Qed.
+
 (* what the defect was: without the validation the same arithmetic returns a "secret" for
    the off-curve pair (1,1) and for (0,0) (computed on small private keys to keep this cheap) *)
 Lemma ecdh_unchecked_refuted :
